@@ -385,7 +385,17 @@ def str_encode(self, encoding="utf-8", errors="strict"):
         if truth(mkbool(z3.ULT(c, lim))):
             out.append(z3.simplify(z3.Extract(7, 0, c)))
         elif enc in ("utf-8", "utf8"):
-            raise Unsupported("utf-8 encoding of a symbolic non-ASCII character")
+            # UTF-8 of a symbolic code point: fork on the length class, bytes by bit extraction
+            def x(hi, lo, prefix, width):
+                return z3.simplify(z3.Concat(z3.BitVecVal(prefix, 8 - width), z3.Extract(hi, lo, c)))
+            if truth(mkbool(z3.ULT(c, 0x800))):
+                out.extend([x(10, 6, 0b110, 5), x(5, 0, 0b10, 6)])
+            elif truth(mkbool(z3.ULT(c, 0x10000))):
+                if truth(mkbool(z3.And(z3.UGE(c, 0xD800), z3.ULE(c, 0xDFFF)))):
+                    raise UnicodeEncodeError("utf-8", "", 0, 1, "surrogates not allowed")
+                out.extend([x(15, 12, 0b1110, 4), x(11, 6, 0b10, 6), x(5, 0, 0b10, 6)])
+            else:
+                out.extend([x(20, 18, 0b11110, 3), x(17, 12, 0b10, 6), x(11, 6, 0b10, 6), x(5, 0, 0b10, 6)])
         else:
             raise UnicodeEncodeError(enc, "", 0, 1, "model")
     return SymBytes(out)
